@@ -50,6 +50,12 @@ def run_case(case, rec):
     G.graph.update(copy.deepcopy(case.get('gattr', {})))
     M.graph = copy.deepcopy(dict(G.graph))
     idk = case.get('idkey', 'id')
+    if idk != 'id' and M.nodes and len(case['ops']) % 3 == 0:
+        # with a custom id key, 'id' is an ordinary attribute name - here even one whose value is the node id
+        n0 = list(M.nodes)[0]
+        G.add_node(n0, id=n0)
+        M.add_node(n0, {'id': n0})
+        rec.classify("attribute named 'id' under a custom id key")
     attrs = dict(id=idk, source='source', target='target')
     ctx = '%s id key %r' % (case['cls'], idk)
     rec.classify('idkey:' + idk)
@@ -100,6 +106,15 @@ def run_case(case, rec):
         rec.check('C11.rebuild.attrs', okn and hn == M.nodes, lambda: '%s rebuilt node attributes %r, expected %r' % (ctx, hn, M.nodes))
         rec.check('C11.rebuild.graph_attrs', dict(H.graph) == M.graph, lambda: '%s rebuilt graph attributes %r, expected %r' % (ctx, H.graph, M.graph))
         common.check_presence(rec, 'C11.rebuild', H, M, d.nodes, ctx=ctx)
+        # the rebuilt graph is then used like any other graph (attributes set on it); nothing of that may
+        # show up in graphs rebuilt later
+        try:
+            for n in list(H.nodes())[:2]:
+                H.add_node(n, stray_marker=[1])
+            dn.set_node_attributes(H, 7, name='stray_marker2')
+            H.graph['stray_graph_marker'] = True
+        except Exception:
+            pass
     # ---- the directed argument
     for arg in (False, True):
         ok, H2 = safe(lambda: json_graph.node_link_graph(copy.deepcopy(back), directed=arg, attrs=attrs))
